@@ -25,4 +25,6 @@ let table : (Stdlib.String.t * (z list -> z list)) list = [
   "c13b", c13_entry;
   "c15", c15_entry;
   "c15c", c15_entry;
+  "c17", c17_entry;
+  "c17k", c17_entry;
 ]
